@@ -99,6 +99,18 @@ Section C14.
       + eapply reach_inc; [exact Hl | exact Hi |]. apply (proj1 (resolve_spec segs G fuel i li Hli)). exact Hs.
   Qed.
 
+  (* get_ordered_segments_in_groups([a]) (Groups.ordered_ids): the same segments, each ONCE, whatever routes lead to them *)
+  Theorem ordered_once : forall segs G fuel a,
+    acyclic G -> closed G -> NoDup segs -> length G < fuel -> (In a (map gid G) \/ a = "all") ->
+    exists l, ordered_ids segs fuel G a = Ret l /\ NoDup l /\ forall s, In s l <-> reach segs G a s.
+  Proof.
+    intros segs G fuel a Hac Hcl Hnd Hf Ha.
+    destruct (closure segs G fuel a Hac Hcl Hnd Hf Ha) as [l [Hl [Hn Hs]]].
+    exists (isortZ l). unfold ordered_ids. rewrite Hl. split; [reflexivity|]. split.
+    - eapply Permutation_NoDup; [symmetry; apply isortZ_perm | exact Hn].
+    - intros s. rewrite <- Hs. split; apply Permutation_in; [|symmetry]; apply isortZ_perm.
+  Qed.
+
   (* (2) optimising returns, keeps the group list and every group's resolved set *)
   Theorem preserve : forall segs G fuel,
     acyclic G -> closed G -> NoDup segs -> length G < fuel -> ~ In "" (map gid G) ->
